@@ -2,7 +2,7 @@ SPECIFICATION Spec
 CONSTANTS
   Clients = {"c1", "c2"}
   Ids = {"s1", "s2"}
-  MaxCalls = 3
+  MaxCalls = 2
   Locked = TRUE
   StepGuard = TRUE
   NilGuard = TRUE
